@@ -679,6 +679,10 @@ def rand_udp_programs(seed, n, path):
                 p = rand_udp_program(rng)
                 if k % 10 == 7:
                     p["topo"]["default"] = True   # the library's own default_config behind the probes
+                elif k % 10 == 3 and '"nat": "X' not in json.dumps(p):
+                    # the same program between IPv6 addresses
+                    p = json.loads(json.dumps(p).replace('"A1"', '"A6"').replace('"A2"', '"D6"').replace('"B1"', '"B6"').replace('"C1"', '"C6"'))
+                    p["topo"]["v6"] = True
                 f.write(json.dumps(p) + "\n")
 
 
